@@ -31,6 +31,12 @@ META = {
          "The decision logic in Core (when to report, about what) needs the Core tier and is not claimed yet.", "DESIGN.md 5/C15"),
  "C17": ("Bounded symbolic model checking of the auxiliary wire formats: every TCPCLv4 message type with fully symbolic integer fields (and two messages back to back) round-trips through Marshal/ReadMessage with exact stream alignment; code/magic/version/type bytes are arbitrary bytes and are accepted exactly for the enumerated values; bundle IDs, status reports / administrative records, creation timestamps, endpoint IDs in CBOR, announcements, WebSocket-agent messages and BBC headers round-trip with alignment; NewEndpointID over symbolic ASCII text is accepted exactly per a reference grammar, parse(print(e)) == e, and equal URI text implies equal structure.",
          "Bounds: strings of <= 3 symbolic bytes in messages, endpoint text <= 4 (thorough 6) symbolic bytes after the scheme prefix, ipn numbers <= 3 digits in text form (full 64 bit in CBOR form). Outside: longer strings, non-ASCII endpoint text.", "DESIGN.md 5/C17"),
+ "C05": ("Bounded symbolic model checking over event histories of a real routing.Core (real storage.Store code over atomic key-value / file models, real CLA manager, cron, id keeper, each of epidemic / spray / binary_spray / dtlsr / prophet) with scripted convergence layers: histories of depth <= 3 (thorough 4) over {application submits, peer 1/2 appears, a peer disappears, pending-retry tick, orderly restart} with the outcome of every send a solver choice; after every event every accepted bundle without a successful transmission is in the store, loads as itself and is marked pending; under epidemic a retry re-offers it to every connected peer that does not have it; same-millisecond submissions are retained under distinct keys.",
+         "Bounds: <= 2 bundles, <= 2 peers, depth 3/4; virtual time; one cooperative schedule (goroutines run until they block); store calls atomic and durable; badger and the file system are models (native replays run the same histories against real badger in a temp dir). Outside: deeper histories, crash points (C08), concurrent failure reports in both orders, sensor-mule.", "DESIGN.md 5/C05"),
+ "C07": ("Bounded symbolic model checking of local fan-out: the REST agent with 0-3 clients over a three-endpoint universe in every registration order (thorough: reverse map iteration as well): a client's mailbox holds an arriving bundle exactly once iff its endpoint is the destination, a second copy is appended once, the agent reports exactly the registered endpoints; the real MuxAgent (handler goroutines) with 0-3 children owning 1-2 endpoints: the message reaches each owner once and nobody else; endpoint-ownership queries are set membership.",
+         "Not covered (cannot be encoded): REST fetch concurrent with delivery (the read/clear pair sits between encoding/json and net/http calls), WebSocket clients (gorilla). The Core-level part (local destination is not forwarded; report only after hand-over) is not claimed yet.", "DESIGN.md 5/C07"),
+ "C16": ("Bounded symbolic model checking of the CLA manager: all sequences (<= 4, thorough 6) of {start succeeds / fails-retry / fails-no-retry, stop} on one convergenceElem for permanent and non-permanent adapters and budgets 0..3 against a reference state machine; and the real Manager (handler goroutine, retry ticker in virtual time) over sequences of {register (also twice), retry tick, unregister} then Close: listed as sender exactly while the most recent Start succeeded and no Close followed (oracle = the mock adapter's own event log), single instance per address, permanent adapters retried every interval, every started adapter closed exactly once, no panic or deadlock.",
+         "Bounds: one adapter, sequences of <= 3 (thorough 5) manager events, queue ttl 0..2. Outside: several adapters, peer-disappeared events through real CLAs, providers.", "DESIGN.md 5/C16"),
 }
 
 NA_REASON = {}
